@@ -190,6 +190,12 @@ class World:
 
     # ------------------------------------------------------------------ events
     def observe(self):
+        # (rendering is a read-only query - a stuttering step of the specification - and it warms
+        # whatever the library caches about key files)
+        try:
+            self.cfg.to_tree()
+        except Exception:  # noqa
+            pass
         cfgadapter.KNOWN_PLAINTEXTS[:] = sorted(self.plaintexts)
         return {"cfg": cfgadapter.project_cfg(self.cinco, self.cfg, self.root)}
 
@@ -518,7 +524,7 @@ def run_persist(prop, invs, props, tier, seed):
     sedges, sinits = normalise(sim.printed.get("EDGE", []), sim.printed.get("INIT", []))
     g2 = replay.Graph(sinits + inits, sedges)
     stats2, mism2 = replay.run_graph(adapter, g2, seed=seed)
-    relevant = {"C02": ("RoundTrip", "Set", "Render"), "C03": ("RoundTrip", "Set"), "C10": ("Render", "Set")}[prop]
+    relevant = {"C02": ("RoundTrip", "Set", "Adopt", "Render"), "C03": ("RoundTrip", "Set", "Adopt"), "C10": ("Render", "Set"), "C06": ("Set", "Adopt")}[prop]
     for m in (mism + mism2)[:30]:
         if m.ev["op"] not in relevant:
             continue
